@@ -117,6 +117,12 @@ def proofs(pid, tier="quick"):
 ALLOWED_AXIOMS = set()   # the development is axiom-free; anything printed here fails the check
 
 # ------------------------------------------------------------------------------------------ running histories
+class RunnerCrash(Exception):
+    """the implementation killed the harness process; .text is the (smallest found) history input that does it"""
+    def __init__(self, text, fatal, log, crashes):
+        Exception.__init__(self, "go runner failed: " + fatal)
+        self.text, self.fatal, self.log, self.crashes = text, fatal, log, crashes
+
 def run_hist(histories, tag, go_bin, want_model=True):
     os.makedirs(BUILD, exist_ok=True)
     hp = os.path.join(BUILD, tag + ".hist")
@@ -125,7 +131,26 @@ def run_hist(histories, tag, go_bin, want_model=True):
             f.write(h.text() if hasattr(h, "text") else h)
     rc, out = sh("%s run < %s > %s.go" % (go_bin, hp, hp), timeout=1800)
     if rc:
-        raise RuntimeError("go runner failed: " + out[-2000:])
+        # the implementation took the whole process down (fatal error, deadlock, runaway recursion): find the history that does it
+        texts = [h.text() if hasattr(h, "text") else h for h in histories]
+        fatal = next((l for l in out.split("\n") if l.startswith(("fatal error", "panic:", "runtime: goroutine stack"))), out[:200])
+        def crashes(ts):
+            with open(hp + ".iso", "w") as f:
+                f.write("".join(ts))
+            for _ in range(3):   # the crash can depend on timing: try a few times before deciding this part is harmless
+                r, _ = sh("%s run < %s.iso > /dev/null" % (go_bin, hp), timeout=600)
+                if r != 0:
+                    return True
+            return False
+        while len(texts) > 1:
+            half = texts[:len(texts) // 2]
+            if crashes(half):
+                texts = half
+            elif crashes(texts[len(texts) // 2:]):
+                texts = texts[len(texts) // 2:]
+            else:
+                break   # only the combination crashes: keep all of them
+        raise RunnerCrash("".join(texts), fatal, out[:3000], lambda t: crashes([t]))
     go = lib.read_obs(hp + ".go")
     ml = None
     if want_model:
